@@ -509,7 +509,7 @@ def run(ctx):
     mods = _impl()
     rng = ctx.rng
     # ---------------- (i) tables through the spec encoder
-    N = ctx.n(6000, 60000)
+    N = ctx.n(12000, 100000)
     cases = []
     for _ in range(N):
         t, feats = gen_table(rng)
@@ -536,9 +536,23 @@ def run(ctx):
         if ok and t['rows'] and feats - {'novalue', 'override-units'}:
             ctx.nontriv(p)
     ctx.sample({'op': 'eflr', 'table_in': table_txt(cases[0][0], False)[:400], 'choices': choices_txt(cases[0][1]), 'payload': payloads[0].hex()[:200]})
+    # ---------------- (i-b) duplicate object names (outside Table.wf): the REPLACE strategy as coded, correspondence only
+    dcases = []
+    for _ in range(ctx.n(600, 6000)):
+        t, _f = gen_table(rng, max_cols=4, max_rows=6)
+        if len(t['rows']) < 2: continue
+        for _k in range(rng.randint(1, 2)):
+            i, j = rng.sample(range(len(t['rows'])), 2)
+            t['rows'][j]['name'] = list(t['rows'][i]['name'])
+        dcases.append((t, gen_choices(rng, t)))
+    enc2 = ctx.lean([f'enc {table_txt(t, False)} {choices_txt(ch)}' for t, ch in dcases])
+    pl2 = [b'' if h == '-' else bytes.fromhex(h) for h in enc2]
+    dec2 = ctx.lean(['eflr ' + hx(p) for p in pl2])
+    for p, m in zip(pl2, dec2):
+        ctx.corr('eflr-duplicate-objects', {'op': 'eflr-raw', 'payload': p.hex()}, impl_eflr(mods, p), m)
     # ---------------- (ii) malformed payloads: correspondence of the error branches
     mal = []
-    for _ in range(ctx.n(6000, 60000)):
+    for _ in range(ctx.n(12000, 100000)):
         p = rng.choice(payloads)
         if len(p) > 600: continue
         mal.append(mutate(rng, p))
@@ -551,7 +565,7 @@ def run(ctx):
         ctx.corr('eflr-malformed', {'op': 'eflr-raw', 'payload': p.hex()}, out, m)
         ctx.count('malformed_' + (out.split(' ')[1] if out.startswith('err') else 'ok'))
     # ---------------- (iii) whole files: split at FILE-HEADER, ORIGIN second, encrypted skipped, IFLRs attached
-    NF = ctx.n(400, 4000)
+    NF = ctx.n(800, 6000)
     fcases, reqs = [], []
     for _ in range(NF):
         files = gen_file_items(rng, rng.randint(1, 4))
@@ -583,7 +597,7 @@ def run(ctx):
     ctx.sample({'op': 'lfiles', 'n_records': len(recs_all[0]), 'expected': expected_files_txt(fcases[0], recs_all[0])[:300]})
     # ---------------- (iv) malformed record sequences (correspondence of the index error branches)
     seqs = []
-    for _ in range(ctx.n(600, 6000)):
+    for _ in range(ctx.n(1200, 9000)):
         recs = list(rng.choice(recs_all))
         k = rng.random()
         if k < 0.3 and len(recs) > 1:
@@ -607,7 +621,7 @@ def run(ctx):
 
 def replay(ctx, rec):
     mods = _impl()
-    case = rec['case']
+    case = rec.get('case') or {}
     n0 = len(ctx.failures)
     if case.get('op') == 'eflr':
         oracle_eflr(ctx, mods, case['table'], case['choices'], bytes.fromhex(case['payload']))
